@@ -41,6 +41,10 @@ pub enum Profile {
     Pure,
     /// C05 / C06: more expired entries pending than one maintenance batch purges
     Bulk,
+    /// C12 / C13 / C03 on the concurrent cache with un-synced batches: tight capacities, the clock
+    /// beyond the periodical-sync interval (no maintenance nested in the calls), explicit sync()
+    /// every few operations
+    Batch,
 }
 
 impl Profile {
@@ -60,6 +64,7 @@ impl Profile {
             "iter" => Profile::Iter,
             "pure" => Profile::Pure,
             "bulk" => Profile::Bulk,
+            "batch" => Profile::Batch,
             _ => return None,
         })
     }
@@ -80,6 +85,25 @@ pub fn gen_config(rng: &mut Rng, profile: Profile) -> Config {
             }
         }
     };
+    if profile == Batch {
+        let keys = rng.range(4, 14) as u32;
+        let expiry = rng.chance(1, 5);
+        return Config {
+            kind: Kind::Sync,
+            cap: Some(*rng.pick(&[1u64, 2, 3, 3, 4, 4, 5, 6, 8, 10])),
+            weigher: rng.chance(2, 3),
+            ttl: if expiry && rng.chance(1, 2) { Some(pick_duration(rng)) } else { None },
+            tti: if expiry && rng.chance(1, 2) { Some(pick_duration(rng)) } else { None },
+            hasher: match rng.below(10) {
+                0..=5 => HashMode::Mix(rng.below(1000)),
+                6 | 7 => HashMode::Identity,
+                _ => HashMode::Collide2,
+            },
+            density: Density::Sparse,
+            keys,
+            initial_capacity: None,
+        };
+    }
     if profile == Bulk {
         let d = *rng.pick(&[1u64, 1000, SEC]);
         let (ttl, tti) = match rng.below(3) {
@@ -272,6 +296,10 @@ impl Gen {
                 return op;
             }
         }
+        if self.profile == Batch && self.next_vid == 1 && now < 501 * MS {
+            // leave the window in which every call runs the maintenance itself
+            return Op::Advance { ns: 501 * MS };
+        }
         let nkeys = cfg.keys;
         let sync_sparse = cfg.kind == Kind::Sync && cfg.density == Density::Sparse;
         let unsync = cfg.kind == Kind::Unsync;
@@ -291,6 +319,7 @@ impl Gen {
             Iter => [28, 16, 6, 18, 6, 3, 3, 10, 5, 4],
             Pure => [28, 26, 0, 0, 5, 2, 2, 12, 0, 10],
             Bulk => [10, 40, 25, 5, 2, 0, 0, 10, 5, 0],
+            Batch => [34, 22, 2, 1, 12, 1, 0, 1, 9, 18],
         };
         if !unsync {
             w[6] = 0;
